@@ -64,3 +64,9 @@ pub open spec fn group_mirrors_mls_except_self_update(w: World, g: GroupId) -> b
     w.groups.contains_key(g) && w.mls.contains_key(g) && record_mirrors(w.groups[g], w.mls[g])
     && w.relays.contains_key(g) && w.relays[g] == ext_relays(w.mls[g].ext)
 }
+
+// the append-only ghost logs only ever grow
+pub open spec fn logs_extend(a: World, b: World) -> bool {
+    a.better_queries.len() <= b.better_queries.len() && b.better_queries.subrange(0, a.better_queries.len() as int) =~= a.better_queries
+    && a.rollback_attempts.len() <= b.rollback_attempts.len() && b.rollback_attempts.subrange(0, a.rollback_attempts.len() as int) =~= a.rollback_attempts
+}
